@@ -358,7 +358,27 @@ class C16(Spec):
         return us
 
 
-_SPECS = {'C08': C08, 'C09': C09, 'C10': C10, 'C11': C11, 'C13': C13, 'C15': C15, 'C16': C16, 'C18': C18, 'C01': C01, 'C02': C02, 'C03': C03, 'C04': C04, 'C05': C05, 'C06': C06, 'C07': C07}
+class C17(Spec):
+    engine = 'E5-progmatrix'
+    design_ref = 'DESIGN.md 4/C17'
+    technique = 'exhaustive enumeration of the configuration box (N, degree, k, closed) on the real code, each configuration in a forked child under AddressSanitizer with a CPU limit, against an independent integer model'
+    level_text = ('all (N, degree, k, closed) with 3<=N<=10 (thorough 16), 2<=degree<=N, 1<=k<=2 (thorough 4), open and closed, two trajectories (equal-step geodesic, zig-zag), groups SE2/SO3/SE3/R3, plus the rejected configurations; '
+                  'each one runs in a forked child under AddressSanitizer (exact-size trajectory storage) with a 5 s CPU limit; the result size, the end point of every window and, for degree 2, every curve point are compared with an independent integer window model and reference-model geodesics')
+    rule = 'cells = configurations (N, d, k, closed, trajectory) per group; non-trivial = degree > 2 or closed'
+    explanation = 'explicit enumeration of the configuration box; oracle = integer model windows = floor((N-1)/(d-1)) (+1 closed), size = windows * (d==2 ? k : k*d), last point of window s = control point s(d-1)+d-1'
+    assumptions = ['trajectories are two fixed deterministic families', 'AddressSanitizer reports every read outside the trajectory storage']
+    level_note = 'trusted: AddressSanitizer, fork/rlimit sandbox, RefAlg for geodesics'
+
+    def units(self, tier):
+        us = lattice_units('checks/c17.cpp', groups=['SE2', 'SO3', 'SE3', 'R3'], scalars=['double'], flags=['-fsanitize=address', '-fno-omit-frame-pointer'], shards=4)
+        us += lattice_units('checks/c17.cpp', groups=['SE2'], scalars=['float'], flags=['-fsanitize=address', '-fno-omit-frame-pointer'], shards=4)
+        for u in us:
+            u.ldflags = ['-fsanitize=address']
+            u.link = ['ref_asan']
+        return us
+
+
+_SPECS = {'C08': C08, 'C09': C09, 'C10': C10, 'C11': C11, 'C13': C13, 'C15': C15, 'C16': C16, 'C17': C17, 'C18': C18, 'C01': C01, 'C02': C02, 'C03': C03, 'C04': C04, 'C05': C05, 'C06': C06, 'C07': C07}
 
 
 def get(prop):
